@@ -536,13 +536,27 @@ Example C12_order_example :
   = Some (Some [[12; 11; 14]; [13; 11; 14]; [7; 6; 10; 14]; [8; 6; 10; 14]]).
 Proof. exact ex3_ordered. Qed.
 
+(* an Instance handed in as a plain element (INSIDE, not recursive): the wires of its cell at every
+   occurrence of the instance - the valid instance paths ending in it, below the top instance of
+   whichever netlist (the occurrences of C11_hrefs_of_instances) - each once; whatever the patterns *)
+Theorem C12_roots_instance_element : forall s x pat usum,
+  Inv1a s -> Inv2a s -> WFk s -> acyclic s -> kind_of s x = Some KInstance ->
+  exists l, get_hwires_roots s SInside false pat usum [RObj (QId x)] = Some l /\ NoDup l /\
+    (forall h, In h l <-> exists p, (exists t, is_path s t p) /\ hd_error p = Some x /\ In h (hwires_at s p)).
+Proof. exact get_hwires_roots_instance_element. Qed.
+
+Example C12_roots_instance_element_hypotheses_satisfiable_example :
+  Inv1a ex3 /\ Inv2a ex3 /\ WFk ex3 /\ acyclic ex3 /\ kind_of ex3 10 = Some KInstance /\
+  get_hwires_roots ex3 SInside false pat_any ex3_u [RObj (QId 10)] = Some [[7; 6; 10; 14]; [8; 6; 10; 14]].
+Proof. exact ex3_instance_element_hypotheses. Qed.
+
 (* ---- kept as a statement, not proved: (a) from a hierarchical instance with selection ALL the answer is
         saturated - it is exactly the union of the connectivity classes of the wires at or below the
         instance and of the wires attached outside to its own pins (C12_roots_all_instance gives the
         answer as "wires at or below + classes of the wires on the pins at or below"; missing: every
         crossing of a wire at or below goes through a pin at or below, i.e. hpins_of_hwire of those wires
-        lie in the start list); (b) Instance / Definition / Library roots tied to C11's occurrence theorem
-        (expand_root = the occurrences of the element); (c) the yield ORDER (not determined by the design
+        lie in the start list); (b) Definition / Library roots, and Instance roots with `recursive`, tied to C11's occurrence
+        theorem (proved: the Instance root, not recursive - C12_roots_instance_element); (c) the yield ORDER (not determined by the design
         for most roots: hpin_search and the expansion of Definition / Instance roots are Python sets). ---- *)
 Definition C12_roots_full : Prop := forall s t,
   Inv1a s -> Inv2a s -> WFk s -> WFc s -> is_root s t ->
@@ -568,3 +582,4 @@ Print Assumptions C12_roots_single_reference_agrees.
 Print Assumptions C12_roots_all_from_wire_reference.
 Print Assumptions C12_order_pattern_loop_elements.
 Print Assumptions C12_order_answer_elements.
+Print Assumptions C12_roots_instance_element.
